@@ -29,7 +29,9 @@ import (
 	"io"
 	"net"
 	"os"
+	"runtime"
 	"sort"
+	"strings"
 	"sync"
 	"sync/atomic"
 	"testing"
@@ -550,14 +552,18 @@ func (w *xhWorld) runCase(tc xhCase, idx int) map[string]any {
 	// ---- quiescence: the goroutine of handleConnectingTpReg has made its last statistics call
 	want := 2
 	asnR, asnC := xhAsn(regAddr), xhAsn(cip)
+	if tc.Geo == "ccfail" || tc.Geo == "asnfail" {
+		want = 0
+		time.Sleep(300 * time.Millisecond)
+	}
 	tq := time.Now()
-	deadline := time.Now().Add(13 * time.Second)
+	deadline := time.Now().Add(time.Duration(vEnvInt("VERIF_TEARDOWN_S", 8)) * time.Second) // (a close the station never saw is noticed by the heartbeat watchdog: 10 - 20 s)
 	for time.Now().Before(deadline) {
 		calls := w.stats.get(asnR, asnC)
 		rec.mu.Lock()
 		ret := rec.ret
 		rec.mu.Unlock()
-		if ret == "conn" {
+		if ret == "conn" && tc.Mode != "fake" {
 			want = 3
 		}
 		nn := 0
@@ -570,6 +576,23 @@ func (w *xhWorld) runCase(tc xhCase, idx int) map[string]any {
 			break
 		}
 		time.Sleep(10 * time.Millisecond)
+	}
+	if time.Since(tq) > 3*time.Second {
+		buf := make([]byte, 8<<20)
+		buf = buf[:runtime.Stack(buf, true)]
+		var st []string
+		for _, g := range strings.Split(string(buf), "\n\n") {
+			if strings.Contains(g, "station/lib.halfPipe") || strings.Contains(g, "station/lib.Proxy") {
+				var fr []string
+				for _, l := range strings.Split(g, "\n") {
+					if !strings.HasPrefix(l, "\t") && len(fr) < 9 {
+						fr = append(fr, l)
+					}
+				}
+				st = append(st, strings.Join(fr, " < "))
+			}
+		}
+		row["slow_teardown_goroutines"] = st
 	}
 	time.Sleep(30 * time.Millisecond)
 	rec.mu.Lock()
@@ -590,6 +613,15 @@ func (w *xhWorld) runCase(tc xhCase, idx int) map[string]any {
 		seq = append(seq, map[string]any{"k": c.K, "key": key, "cc": c.CC, "tp": c.Tp, "ms": c.Ms, "seq": c.Seq})
 	}
 	row["stats"] = seq
+	disc := false
+	for _, x := range seq {
+		if x["k"] == "discarded" {
+			disc = true
+		}
+	}
+	rec.mu.Lock()
+	row["still_open"] = rec.ret == "conn" && !disc // Proxy has not returned: the station has not noticed that the client closed
+	rec.mu.Unlock()
 	row["wall_ms"] = time.Since(t0).Milliseconds()
 	row["quiesce_ms"] = time.Since(tq).Milliseconds()
 	return row
